@@ -16,7 +16,7 @@ import (
 func init() {
 	Register(&Property{
 		ID: "C16",
-		Explanation: "Decides positional agreement in the batched name<->UUID mappers: (R16.1) in Mapper.FromTuple and Mapper.ToTuple every loop iteration appends exactly two values to the batch on every feasible valuation of the subject kind (both-nil is excluded because Validate, which is evaluated, rejects it; a nil internal subject is excluded by R16.4), the tuple index is len(res) taken before the single append to res, and each deferred reader registered after the j-th append reads batch[2*i+j]; (R16.2) the value appended at position j and the field the deferred reader assigns have the same role (subject / object); the single-item mappers (FromQuery, ToQuery, ToTree) index by the position captured at the append or by first/last where that is the position on every path; (R16.3) MapStringsToUUIDsReadOnly derives uuids[i] from ss[i] with the same i, and batchFromUUIDs writes the representation of an id to exactly the result indices that id occupies; (R16.4) ToInternal sets a non-nil Subject on every path that returns a tuple; (R16.5) the storage layer keeps no process-local cache of mappings; (R16.6) a chunked loop's stride equals the size of the chunk built inside it (ids between the two would come back unresolved). " +
+		Explanation: "Decides positional agreement in the batched name<->UUID mappers: (R16.1) in Mapper.FromTuple and Mapper.ToTuple every loop iteration appends exactly two values to the batch on every feasible valuation of the subject kind (both-nil is excluded because Validate, which is evaluated, rejects it; a nil internal subject is excluded by R16.4), the tuple index is len(res) taken before the single append to res, and each deferred reader registered after the j-th append reads batch[2*i+j]; (R16.2) the value appended at position j and the field the deferred reader assigns have the same role (subject / object); the single-item mappers (FromQuery, ToQuery, ToTree) index by the position captured at the append or by first/last where that is the position on every path; (R16.3) MapStringsToUUIDsReadOnly derives uuids[i] from ss[i] with the same i, and batchFromUUIDs writes the representation of an id to exactly the result indices that id occupies; (R16.4) ToInternal sets a non-nil Subject on every path that returns a tuple; (R16.5) the storage layer keeps no process-local cache of mappings; (R16.8) the storage-side mapping functions and the helpers they hand their input to never write into the caller's strings; (R16.7) statements on the mapping table are inserts and id-keyed reads only (no row is deleted or rewritten); (R16.6) a chunked loop's stride equals the size of the chunk built inside it (ids between the two would come back unresolved). " +
 			"Not decided: injectivity of UUIDv5 (cryptographic), the SQL round trip of the mapping rows.",
 		Assumptions: []string{"ketoapi.RelationTuple.Validate is called before the appends (checked) and rejects exactly the tuples it is evaluated to reject"},
 		Run:         runC16,
@@ -540,6 +540,9 @@ func runC16(c *Ctx) {
 	r164(c)
 	r047(c, "R16.5")
 	strideMatchesChunk(c, "R16.6")
+	// R16.7 a stored mapping is never removed or changed (the mapping table is shared and append-only)
+	c.R.SubRun(func() { runC06(c) }, map[string]string{"R06.4": "R16.7", "R06.2": "R16.7", "R06.3": "R16.7"})
+	inputStringsNotWritten(c, "R16.8")
 }
 
 // ---- R16.2 single-item mappers ---------------------------------------------------------------------
@@ -1052,5 +1055,64 @@ func strideMatchesChunk(c *Ctx, rule string) {
 	}
 	if n < 1 {
 		r.Undecide(rule, "", "strided loops in persistence/sql", "", "none found (floor 1: batchFromUUIDs)")
+	}
+}
+
+// ---- R16.8 the strings handed to the mapping layer are stored as handed ------------------------------
+
+// inputStringsNotWritten: the storage-side mapping functions derive the UUID
+// from a string and store (uuid, string). Nothing between the two may write
+// into the caller's slice of strings -- also not a helper that receives it
+// (a log abbreviation, a normalisation): the row would hold a string that the
+// UUID was not derived from.
+func inputStringsNotWritten(c *Ctx, rule string) {
+	p, r := c.P, c.R
+	n := 0
+	// summary: does a keto function store through an index of its i-th (string slice) parameter?
+	var writesParam func(fn *ssa.Function, idx int, depth int) (bool, string)
+	writesParam = func(fn *ssa.Function, idx int, depth int) (bool, string) {
+		if fn == nil || fn.Blocks == nil || idx >= len(fn.Params) || depth > 3 {
+			return false, ""
+		}
+		par := fn.Params[idx]
+		found, where := false, ""
+		core.Instrs(fn, func(_ *ssa.BasicBlock, _ int, ins ssa.Instruction) {
+			switch x := ins.(type) {
+			case *ssa.Store:
+				if ia, ok := x.Addr.(*ssa.IndexAddr); ok && core.ValueOrigin(ia.X) == ssa.Value(par) {
+					found, where = true, p.Pos(x.Pos())
+				}
+			case ssa.CallInstruction:
+				if sc := x.Common().StaticCallee(); sc != nil && core.FuncPkg(sc) != nil && core.IsKeto(core.FuncPkg(sc)) {
+					for i, a := range x.Common().Args {
+						if core.ValueOrigin(a) == ssa.Value(par) {
+							if w, at := writesParam(sc, i, depth+1); w {
+								found, where = true, at
+							}
+						}
+					}
+				}
+			}
+		})
+		return found, where
+	}
+	for _, fn := range p.KetoFuncs(sqlPkgRel) {
+		if fn.Parent() != nil || !strings.HasPrefix(fn.Name(), "MapStringsToUUIDs") {
+			continue
+		}
+		for i, par := range fn.Params {
+			sl, ok := par.Type().Underlying().(*types.Slice)
+			if !ok || !isStringT2(sl.Elem()) {
+				continue
+			}
+			n++
+			w, at := writesParam(fn, i, 0)
+			r.Check(!w, rule, core.FuncName(fn), "input strings are not written", p.Pos(fn.Pos()),
+				"neither the function nor a helper it hands the slice to stores into the caller's strings",
+				"the slice of names handed in is written at "+at+" before the mapping rows are built from it: the stored string is no longer the one the UUID was derived from")
+		}
+	}
+	if n < 2 {
+		r.Undecide(rule, "", "storage-side string-to-UUID functions", "", fmt.Sprintf("%d found (floor 2)", n))
 	}
 }
